@@ -88,9 +88,14 @@ structure NewGrpOpts where
   pub : PrivArg := .absent
   hasDesc : Bool := false
 
+/-- symbolic name of the n-th group topic; spelled out for small n so that closed terms reduce in the kernel -/
+def tName : Nat → String
+  | 1 => "T1" | 2 => "T2" | 3 => "T3" | 4 => "T4" | 5 => "T5" | 6 => "T6" | 7 => "T7" | 8 => "T8" | 9 => "T9"
+  | n => s!"T{n}"
+
 /-- {sub topic="new…"}: initTopicNewGrp (init_topic.go:498-620) then the subscription of the creator -/
 def Ctx.opNewGrp (c : Ctx) (a : Actor) (o : NewGrpOpts) : Ctx :=
-  let tn := s!"T{c.w.nextT}"
+  let tn := tName c.w.nextT
   let pubTok : Tok := match o.pub with | .val s => some s | _ => none
   let privTok : Tok := match o.priv with | .val s => some s | _ => none
   -- default access
